@@ -27,9 +27,13 @@ pub struct GenCfg {
   pub max_r: usize,
   pub max_len: usize,
   pub steps: usize,
+  /// probability of the wide profile (every task reads one common source first; histories of bottom-up builds)
+  pub wide: f64,
 }
 
 struct G<'a> {
+  /// wide profile: the source every task reads first
+  wide: Option<i64>,
   /// optional-output profile: (writer, its resource, a reader, a source resource, the reader's output checker)
   optwrite: Option<(i64, i64, i64, i64, String)>,
   /// resources of the library's own map resource type only admit the library's equality checker
@@ -182,6 +186,16 @@ impl<'a> G<'a> {
 
   fn gen_task(&mut self, t: i64, chain: bool) -> Vec<Vec<Op>> {
     let mut table: Vec<Vec<Option<Op>>> = vec![vec![None; self.na as usize]; self.len + 1];
+    if let Some(src) = self.wide {
+      // wide profile: every task reads the same source first, so that one change schedules all of them at once in a
+      // bottom-up build and what they do next (including whom they require) depends on the new value
+      for a in 0..self.na as usize { table[0][a] = Some(Op::rd(src, "eq")); }
+      if self.len >= 1 && (t as usize) < self.nt {
+        for a in 0..self.na as usize {
+          if self.rng.gen_bool(0.55) { table[1][a] = Some(Op::rq(self.rng.gen_range(t + 1..=self.nt as i64), "eq")); }
+        }
+      }
+    }
     if let Some((w, r, rdr, src, chk)) = self.optwrite.clone() {
       // optional-output profile: generator w writes its resource r only for some values of a source and keeps a
       // constant output; reader rdr requires w and reads r ("a plain resource becomes generated" and back)
@@ -209,7 +223,7 @@ impl<'a> G<'a> {
         let r = pick_src(self.rng);
         for a in 0..self.na as usize { table[0][a] = Some(Op::rd(r, "eq")); }
         if self.len >= 2 {
-          for a in 0..self.na as usize { if self.rng.gen_bool(0.5) { table[1][a] = Some(Op::rq(self.rng.gen_range(2..=3.min(nt)), "eq")); } }
+          for a in 0..self.na as usize { if self.rng.gen_bool(0.5) { table[1][a] = Some(Op::rq(self.rng.gen_range(2..=(nt - 1).max(2)), "eq")); } }
         }
       } else {
         if t < nt { for a in 0..self.na as usize { table[0][a] = Some(Op::rq(t + 1, "eq")); } }
@@ -316,11 +330,15 @@ pub fn generate(seed: u64, index: usize, cfg: &GenCfg) -> Scenario {
       Some((w, (r + 1) as i64, rdr, (*srcs.choose(&mut rng).unwrap() + 1) as i64, chk.to_string()))
     } else { None }
   };
-  let mut g = G { optwrite, maponly, fileonly, rng: &mut rng, nt, nr, nv, na, len, writer: writer.clone(), rchk, ochk, nowrite, min_req, free,
+  let wide = {
+    let srcs: Vec<usize> = (0..nr).filter(|r| writer[*r] == 0 && rtype[*r] == 0).collect();
+    if !free && !ident && optwrite.is_none() && nt >= 4 && !srcs.is_empty() && rng.gen_bool(cfg.wide) { Some((*srcs.choose(&mut rng).unwrap() + 1) as i64) } else { None }
+  };
+  let mut g = G { wide, optwrite, maponly, fileonly, rng: &mut rng, nt, nr, nv, na, len, writer: writer.clone(), rchk, ochk, nowrite, min_req, free,
                   one_chk: fam != "TWOCHK" };
   let mut prog: Vec<Vec<Vec<Op>>> = Vec::new();
   let flip = free && g.rng.gen_bool(0.6);
-  let chain = !free && !ident && nt >= 4 && g.rng.gen_bool(0.25);
+  let chain = wide.is_none() && !free && !ident && nt >= 4 && g.rng.gen_bool(if nt >= 6 { 0.4 } else { 0.25 });
   for t in 1..=nt as i64 {
     if flip {
       // role-changing task: it reads the mode resource 1 first and plays a different role (writer / reader / requirer /
@@ -394,7 +412,7 @@ pub fn generate(seed: u64, index: usize, cfg: &GenCfg) -> Scenario {
   };
   let mixed = rng.gen_bool(0.35) || matches!(fam, "ROLE" | "INJ" | "ABORT");
   let first_roots = if ident { (1..=nt as i64).collect::<Vec<_>>() }
-    else if rng.gen_bool(0.5) {
+    else if wide.is_some() || rng.gen_bool(0.5) {
       // all tasks, often not in id order: node creation order (initial ranks) then differs from the static require order, so
       // that later dynamic requires go from younger to older nodes and reorder the topological ranks
       let mut v: Vec<i64> = (1..=nt as i64).collect();
@@ -408,9 +426,9 @@ pub fn generate(seed: u64, index: usize, cfg: &GenCfg) -> Scenario {
   let mut boom_armed = false;
   for _ in 0..steps {
     // environment changes
-    let nchg = match rng.gen_range(0..10) { 0 => 0, 1..=5 => 1, 6..=8 => 2, _ => 3 };
+    let nchg = match rng.gen_range(0..10) { 0 if wide.is_none() => 0, 0..=5 => 1, 6..=8 => 2, _ => 3 };
     for _ in 0..nchg {
-      let r = if flip && rng.gen_bool(0.7) { 1 } else { rng.gen_range(1..=nr as i64) };
+      let r = if flip && rng.gen_bool(0.7) { 1 } else if let (Some(s), true) = (wide, rng.gen_bool(0.6)) { s } else { rng.gen_range(1..=nr as i64) };
       let v = rng.gen_range(-1..nv);
       hist.push(Step::Set { r, v });
       dirty.insert(r);
@@ -426,7 +444,8 @@ pub fn generate(seed: u64, index: usize, cfg: &GenCfg) -> Scenario {
         boom_armed = true;
       }
     }
-    let roll = rng.gen_range(0..100);
+    // wide profile: mostly bottom-up builds after a change of the common source
+    let roll = if wide.is_some() && rng.gen_bool(0.6) { 0 } else { rng.gen_range(0..100) };
     if roll < 45 && (fam != "ROLE" || rng.gen_bool(0.4)) {
       // bottom-up build reporting every change since the last one (plus sometimes unchanged resources)
       let mut changed: Vec<i64> = dirty.iter().copied().collect();
